@@ -5,6 +5,7 @@ import (
 	"bytes"
 	"encoding/json"
 	"fmt"
+	"math/rand"
 	"os"
 	"os/exec"
 	"path/filepath"
@@ -331,6 +332,8 @@ func readNDJSON(path string) ([]map[string]interface{}, error) {
 	}
 	return out, sc.Err()
 }
+
+func newRng(seed int64) *rand.Rand { return rand.New(rand.NewSource(seed)) }
 
 func toInts(b []byte) []int {
 	out := make([]int, len(b))
